@@ -58,7 +58,7 @@ Section Step.
   Qed.
 
   Lemma step_Call st bd c g args kwn kwv : R (simp (S f) st bd c (Call g args kwn kwv)) (simp (S f1) st bd c (Call g args kwn kwv)).
-  Proof. cbn [simp]. repeat rstep f f1 IH. Time Qed.
+  Proof. cbn [simp]. repeat rstep f f1 IH. Qed.
 
   Lemma step_all st bd c e : R (simp (S f) st bd c e) (simp (S f1) st bd c e).
   Proof.
